@@ -31,6 +31,7 @@ ASSUMPTIONS = [
     'come from the harness own table of LIS film layouts',
     'absent values are generated in runs of even length so that no interpolated edge crossing can fall on the depth of an absent frame',
     'frame depths are identified inside the SVG by a reference curve (constant, always present) plotted in the same film',
+    'back-up modes: NB / GRAD draw only the unwrapped position, SHIF one back-up either side, WRAP (and unknown modes) every wrap; a point at the position of a suppressed wrap counts as unexplained',
     'the last one or two frames of the interval need not be plotted (the frame slice of the plot excludes its stop, which is found by a floor division of X values)',
 ]
 MECHANISMS = [
@@ -41,7 +42,7 @@ MECHANISMS = [
     ('TotalDepth.util.plot.Plot', 'PlotRoll.polyLinePt'),
 ]
 REQUIRED_MONITORS = ['wrap_identity_lin', 'wrap_identity_log', 'wrap_in_track', 'l2p_vs_exact', 'svg_wellformed', 'svg_in_viewbox',
-                     'svg_in_margins', 'svg_in_track', 'svg_no_point_for_absent', 'svg_points_explained', 'lis_produces_plot',
+                     'svg_in_margins', 'svg_in_track', 'svg_no_point_for_absent', 'svg_points_explained', 'svg_edge_side', 'lis_produces_plot',
                      'las_produces_plot']
 MIN_NONTRIVIAL = {'quick': 60000, 'thorough': 2000000}
 TIMEOUT_S = {'quick': 400, 'thorough': 3300}
@@ -435,7 +436,8 @@ def check_svg(rec, path, what, cap, model=None, film=None, ref_name=None, absent
                 # in-track position grows with |wrap|; when it reaches a quarter of the track the position is unconstrained
                 slack = 16 * EPS * (abs(w) + 1) * (xr - xl) * (1 + (1 / abs(math.log(c.redg / c.ledg)) if c.log else 0))
                 if slack > (xr - xl) / 4:
-                    expected.append((i, ci, None, 0.0))
+                    if c.on_scale(w):
+                        expected.append((i, ci, None, 0.0))
                     continue
                 cands = [(w, fr)]
                 edge = Fraction(1, 10 ** 6) + Fraction(slack / (xr - xl))
@@ -472,6 +474,8 @@ def check_svg(rec, path, what, cap, model=None, film=None, ref_name=None, absent
             need = [xx for ww, xx in cands if c.on_scale(ww)]
             xs_here = [x for k in (round(y - 0.1, 1), round(y, 1), round(y + 0.1, 1)) for x in ymap.get(k, [])]
             for ww, xx in cands:
+                if not c.on_scale(ww):
+                    continue            # a wrap that the back-up mode suppresses explains no point
                 for dx in (-0.1, 0.0, 0.1):
                     data_xy.add((round(xx + dx, 1), round(y, 1)))
                 if slack > 0.02:
@@ -490,6 +494,62 @@ def check_svg(rec, path, what, cap, model=None, film=None, ref_name=None, absent
                           '%s: curve %r (scale %r..%r %s, mode %r) frame %d value %r: expected a point at x=%r y=%r, found x=%r at that depth' % (
                               what, c.mnem, c.ledg, c.redg, 'log' if c.log else 'lin', c.mode, i, vals[i], need, y, near),
                           dict(wit, output=sec, curve=repr(c.mnem), ledg=c.ledg, redg=c.redg, log=c.log, mode=repr(c.mode), frame=i, value=vals[i], expected_x=need, y=y, found_x=near))
+        # ---- side of the track edge at a wrap: leaving towards a higher wrap count goes to the right edge, the curve
+        # re-enters from the left edge (and the reverse); judged for outputs that feed one curve, on unambiguous frames
+        if len(curves) == 1:
+            c = curves[0]
+            xl, xr = tracks[0]
+            seq = []                       # frames with a computed wrap, in plotting order: (frame, wrap or None when ambiguous)
+            expx = {}
+            for i, ci, cands, slack in expected:
+                if cands is None or len(cands) != 1 or slack > 0.02:
+                    seq.append((i, None))
+                else:
+                    seq.append((i, cands[0][0]))
+                    expx[i] = cands[0][1]
+            # frames whose value has no position at all (non-positive on a log scale) keep the previous wrap: they are not in seq
+            pos_in_seq = {i: k for k, (i, w) in enumerate(seq)}
+            ykey = {round(y, 1): i for i, y in enumerate(yref)}
+
+            def token(pt):
+                x, y = pt
+                fr = None
+                for dy in (0.0, -0.1, 0.1):
+                    i = ykey.get(round(y + dy, 1))
+                    if i is not None and i in expx and abs(expx[i] - x) <= TOL_PT + 0.05:
+                        fr = i
+                        break
+                eL, eR = abs(x - xl) <= TOL_PT, abs(x - xr) <= TOL_PT
+                return fr, eL, eR
+            rec.mon('svg_edge_side')
+            wrong = None
+            for pts in sec_polys:
+                toks = [token(pt) for pt in pts]
+                for a, b, pa, pb in zip(toks, toks[1:], pts, pts[1:]):
+                    fa, aL, aR = a
+                    fb, bL, bR = b
+                    if fa is not None and not (aL or aR) and fb is None and (bL != bR):
+                        k = pos_in_seq.get(fa)
+                        if k is None or k + 1 >= len(seq) or seq[k][1] is None or seq[k + 1][1] is None or seq[k + 1][1] == seq[k][1]:
+                            continue
+                        want_right = seq[k + 1][1] > seq[k][1]
+                        if want_right != bR:
+                            wrong = ('leaves', fa, seq[k][1], seq[k + 1][1], pa, pb)
+                    elif fb is not None and not (bL or bR) and fa is None and (aL != aR):
+                        k = pos_in_seq.get(fb)
+                        if k is None or k == 0 or seq[k][1] is None or seq[k - 1][1] is None or seq[k - 1][1] == seq[k][1]:
+                            continue
+                        want_left = seq[k][1] > seq[k - 1][1]
+                        if want_left != aL:
+                            wrong = ('enters', fb, seq[k - 1][1], seq[k][1], pa, pb)
+                if wrong:
+                    break
+            if wrong and cap['n'] < 20:
+                cap['n'] += 1
+                rec.violation('svg_edge_side', 'wrong-edge',
+                              '%s: curve %r %s the track at frame %d on the wrong side: wrap count goes %d -> %d but the segment is %r -> %r (track %r..%r)' % (
+                                  what, c.mnem, wrong[0], wrong[1], wrong[2], wrong[3], wrong[4], wrong[5], xl, xr),
+                              dict(wit, output=sec, curve=repr(c.mnem), frame=wrong[1], wrap_before=wrong[2], wrap_after=wrong[3], segment=[wrong[4], wrong[5]], track=[xl, xr]))
         stray = None
         yset = sorted(yref)
         import bisect
